@@ -1153,6 +1153,9 @@ pub fn run_c11(tier: Tier) -> i32 {
         Tier::Quick => vec![
             ("hold-inter/<=2calls", ChainH { max_calls: 2, cuts: Cuts::FreeInter, hold: true, sizes: vec![20, 300], pend: false, max_cont: 2, pad: true }, 1),
             ("hold-dev/<=3calls", ChainH { max_calls: 3, cuts: Cuts::Dev, hold: true, sizes: vec![20, 300], pend: false, max_cont: 1, pad: true }, 1),
+            // replies of about 110 bytes: two and a bit of them fill the initial buffer, so that the
+            // beginning of a reply can be longer than the room left behind it
+            ("hold-dev/<=2calls/110-byte-replies", ChainH { max_calls: 2, cuts: Cuts::Dev, hold: true, sizes: vec![64, 70], pend: false, max_cont: 2, pad: false }, 1),
         ],
         Tier::Thorough => vec![
             ("hold-inter/<=3calls", ChainH { max_calls: 3, cuts: Cuts::FreeInter, hold: true, sizes: vec![20, 200, 300, 600], pend: false, max_cont: 2, pad: true }, 1),
